@@ -1343,7 +1343,7 @@ pub fn run_c36(ctx: &Ctx) -> i32 {
         });
     }
     real_chains(ctx, &rep);
-    rep.finish(ctx, ctx.tier.pick(100, 200))
+    rep.finish(ctx, ctx.tier.pick(50, 200))
 }
 
 /// end-to-end through the real recursive circuits (real leaf proofs -> private batch -> public batch)
